@@ -16,7 +16,7 @@ DEC_ARITH = ["Add", "Add", "Sub", "Sub", "DMul", "DMul", "DDiv", "DDiv", "Mod"]
 PRINTABLE = b"abcdefghijklmnopqrstuvwxyzABCDEFGHIJKLMNOPQRSTUVWXYZ0123456789 _-+*/.,:;!?()[]{}<>=#@%&^~|"
 
 ALL_FEATURES = {"probes", "maps", "reasons", "bytes", "strings", "shifts", "pow", "defaults", "ctor", "flags", "decimals", "bytesm", "extcalls", "convert", "ifexp", "minmax", "bitops", "internal", "loops", "arrays", "dynarrays", "structs",
-                "transient", "sender", "value", "fordyn", "forin"}
+                "transient", "sender", "value", "fordyn", "forin", "balance"}
 
 
 class Ctx:
@@ -134,7 +134,16 @@ class Gen:
         for i, (name, vt) in enumerate(self.prog.tra):
             if vt == t:
                 out.append(E("tra", t, name=name, id=i))
+        if t == U256 and getattr(self, "bal_random", False) and not cx.is_ctor:
+            out.append(E("balance", U256, hid=self.bid))
         return out
+
+    def ensure_bal(self):
+        """the contract's ether balance as a reserved cell of the reference program's state (hidden variable)"""
+        if not getattr(self, "use_bal", False):
+            self.use_bal = True
+            self.bid = len(self.prog.sto)
+            self.prog.sto.append(("$balance", U256))
 
     def containers(self, cx, scope):
         """readable composite-typed places as expressions"""
@@ -731,6 +740,10 @@ class Gen:
             kinds += ["append"] * 3 + ["pop"] * 2
         if self.ext_ok(cx):
             kinds += ["extstore"] * 2 + ["extfail"]
+        if getattr(self, "bal_random", False) and not cx.is_ctor and not cx.no_calls:
+            kinds += ["send"] * 2
+        if "internal" in self.feat and not cx.is_ctor and not cx.no_calls:
+            kinds += ["rve"]
         if last and cx.loop_depth > 0:
             kinds += ["brk"] * 6
         if last and d > 0 and not cx.is_ctor:
@@ -739,6 +752,17 @@ class Gen:
             kinds = [k_ for k_ in kinds if k_ not in ("log", "idiom", "copyidiom")]
         k = r.choice(kinds)
         ed = 2 if r.random() < 0.7 else 3
+        if k == "send":
+            amt = E("const", U256, v=r.choice([0, 1, 1, 3, 10]))
+            vs_ = [e for e in self.readable(cx, scope, U256) if e.k == "var"]
+            if vs_ and r.random() < 0.3:
+                amt = r.choice(vs_)
+            return [S("send", hid=self.bid, e=amt)]
+        if k == "rve":
+            out = self.rve_idiom(cx, scope)
+            if out:
+                return out
+            k = "assign"
         if k == "extstore":
             return [S("extstmt", fn="store", args=[self.expr(cx, scope, U256, ed)], hid=self.hid, evid=self.hev)]
         if k == "extfail":
@@ -911,6 +935,153 @@ class Gen:
             out.append(S("aug", op=op, ty=t, base=base, path=[], e=x.clone()))
         outer_scope[:] = scope
         return out
+
+    def rve_idiom(self, cx, scope):
+        """operand order with a read of mutable state on the LEFT and a call that changes it on the RIGHT:
+        `place = <state read> op self.g(..)` where g (transitively) writes what the left operand reads"""
+        r = self.r
+        cands = []
+        for i in self.callable_funs(cx, None, True):
+            f = self.prog.ints[i]
+            if f.ret is None or not is_int(f.ret):
+                continue
+            for e in self.readable(cx, scope, f.ret):
+                nm = "$balance" if e.k == "balance" else (e.f.get("name") if e.k in ("self", "tra") else None)
+                if nm is not None and nm in self.writes.get(i, set()):
+                    cands.append((i, e))
+        if not cands:
+            return None
+        i, rd = r.choice(cands)
+        t = rd.ty
+        call = self.call_expr(cx, scope, i, 1)
+        ops = ["Add", "Sub", "Mul", "Div", "Mod"] + (["BAnd", "BOr", "BXor"] if ("bitops" in self.feat and not t[2]) else [])
+        k = r.choice(["bin"] * 4 + ["cmp", "minmax"])
+        if k == "bin":
+            e, et = E("bin", t, op=r.choice(ops), a=rd, b=call), t
+        elif k == "cmp":
+            e, et = E("cmp", BOOL, op=r.choice(CMPS), a=rd, b=call), BOOL
+        else:
+            e, et = E(r.choice(["min", "max"]), t, a=rd, b=call), t
+        places = [p for p in self.scalar_targets(cx, scope, lambda x: x == et) if p[0][0] != "loc"]
+        if places and r.random() < 0.6:
+            base, path, _ = r.choice(places)
+            return [S("assign", base=base, path=path, e=e, decl=None)]
+        name, vid = self.new_local(cx, et)
+        scope.append((name, vid, et, True))
+        return [S("assign", base=("loc", name, vid), path=[], e=e, decl=et)]
+
+    def shiftconst_probe_function(self, idx, slot=None):
+        """`<<` / `>>` by an amount that is a constant for the optimiser: a literal, a local holding a literal, or a literal
+        argument of an internal helper; amounts 0, 1, 255, 256, 257, 2**255, max; operand = argument at the type bounds /
+        negative, or a literal as well"""
+        r = self.r
+        W = 2 ** 256
+        amounts = [0, 1, 8, 255, 256, 257, 2 ** 255, W - 1]
+        if slot is None:
+            slot = r.randrange(1 << 16)
+        n = amounts[slot % len(amounts)]
+        left = (slot // len(amounts)) % 2 == 0
+        t = U256 if (slot // (2 * len(amounts))) % 2 == 1 else ("int", 256, True)
+        lo, hi = int_bounds(t)
+        mode = r.choice(["lit", "local", "helper", "helper_const"] if "internal" in self.feat else ["lit", "local"])
+        a0 = E("var", t, name="a0", id=0)
+        amt = E("const", U256, v=n)
+        xs = [1, 3, hi, hi - 1, lo, lo + 1, 2 ** 254] + ([-1, -8, -(2 ** 200)] if lo < 0 else [2 ** 255, 2 ** 255 + 5])
+        if mode == "lit":
+            body = [S("return", e=E("shift", t, left=left, a=a0, b=amt))]
+        elif mode == "local":
+            body = [S("assign", base=("loc", "n", 1), path=[], e=amt, decl=U256),
+                    S("return", e=E("shift", t, left=left, a=a0, b=E("var", U256, name="n", id=1)))]
+        else:
+            gi = len(self.prog.ints)
+            self.prog.ints.append(Fun(f"g{gi}", [("a0", t), ("a1", U256)], t,
+                                      [S("return", e=E("shift", t, left=left, a=E("var", t, name="a0", id=0),
+                                                       b=E("var", U256, name="a1", id=1)))], False))
+            self.writes[gi] = set()
+            x = a0 if mode == "helper" else E("const", t, v=r.choice(xs))
+            body = [S("return", e=E("call", t, name=f"g{gi}", id=gi, args=[x, amt], given=None))]
+        f = Fun(f"p{idx}", [("a0", t)], t, body, True)
+        f.probe = t
+        f.probe_calls = [[x % W] for x in (r.sample(xs, 5) if mode != "helper_const" else xs[:1])]
+        return f
+
+    def index_probe_function(self, idx):
+        """subscript at the boundaries: index 0, last, length, length+1, huge (and negative for a signed index type) into a
+        static array / DynArray that is a parameter or a storage variable (read and write)"""
+        r = self.r
+        p = self.prog
+        W = 2 ** 256
+        et = r.choice([U256, self.int_type()])
+        n = r.randrange(1, 5)
+        dyn = "dynarrays" in self.feat and r.random() < 0.5
+        at = ("darr", et, n) if dyn else ("sarr", et, n)
+        it = r.choice([U256, U256, ("int", 8, False), ("int", 128, True)])
+        kind = r.choice(["param", "sto_read", "sto_write"])
+        a0, a1 = E("var", at, name="a0", id=0), E("var", it, name="a1", id=1)
+        if kind == "param":
+            body = [S("return", e=E("idx", et, a=a0, i=a1))]
+        else:
+            si = len(p.sto)
+            p.sto.append((f"s{si}", at))
+            sv = E("self", at, name=f"s{si}", id=si)
+            body = [S("assign", base=("sto", f"s{si}", si), path=[], e=a0, decl=None)]
+            if kind == "sto_write":
+                body.append(S("assign", base=("sto", f"s{si}", si), path=[("i", a1)], e=E("const", et, v=1), decl=None))
+            body.append(S("return", e=E("idx", et, a=sv, i=a1.clone())))
+        f = Fun(f"p{idx}", [("a0", at), ("a1", it)], et, body, True)
+        f.probe = it
+        lo, hi = int_bounds(it)
+        calls = []
+        for ln in ([n] if not dyn else sorted({0, n, r.randrange(0, n + 1)})):
+            arr = [r.randrange(1, 50) for _ in range(ln)]
+            for ix in [0, ln - 1, ln, ln + 1, n, hi, -1 if lo < 0 else hi - 1]:
+                if lo <= ix <= hi:
+                    calls.append([arr, ix % W])
+        f.probe_calls = calls
+        return f
+
+    def rve_probe_function(self, idx):
+        """operand-order probe: `return <read of self.balance / a storage variable> op self.g(a1)` where g changes what the
+        left operand reads (sends ether / writes the variable) and returns its argument"""
+        r = self.r
+        p = self.prog
+        W = 2 ** 256
+        kind = r.choice(["bal", "sto"]) if ("value" in self.feat and "balance" in self.feat) else "sto"
+        gi = len(p.ints)
+        if kind == "bal":
+            self.ensure_bal()
+            t = U256
+            rd = E("balance", U256, hid=self.bid)
+            eff = S("send", hid=self.bid, e=E("var", t, name="a0", id=0))
+            pre = [S("credit", hid=self.bid)]
+        else:
+            t = self.int_type()
+            si = len(p.sto)
+            p.sto.append((f"s{si}", t))
+            rd = E("self", t, name=f"s{si}", id=si)
+            eff = S("assign", base=("sto", f"s{si}", si), path=[], e=E("var", t, name="a0", id=0), decl=None)
+            pre = [S("assign", base=("sto", f"s{si}", si), path=[], e=E("var", t, name="a0", id=0), decl=None)]
+        p.ints.append(Fun(f"g{gi}", [("a0", t)], t, [eff, S("return", e=E("var", t, name="a0", id=0))], False))
+        self.writes[gi] = {"$balance"} if kind == "bal" else {f"s{si}"}
+        call = E("call", t, name=f"g{gi}", id=gi, args=[E("var", t, name="a1", id=1)], given=None)
+        ops = ["Add", "Sub", "Mul", "Div", "Mod"] + ([] if t[2] else ["BAnd", "BOr", "BXor"])
+        k = r.choice(["bin"] * 5 + ["cmp"] * 2 + ["minmax"])
+        if k == "bin":
+            e, ret = E("bin", t, op=r.choice(ops), a=rd, b=call), t
+        elif k == "cmp":
+            e, ret = E("cmp", BOOL, op=r.choice(CMPS), a=rd, b=call), BOOL
+        else:
+            e, ret = E(r.choice(["min", "max"]), t, a=rd, b=call), t
+        f = Fun(f"p{idx}", [("a0", t), ("a1", t)], ret, pre + [S("return", e=e)], True, payable=(kind == "bal"))
+        lo, hi = int_bounds(t)
+        f.probe = t
+        if kind == "bal":
+            f.probe_value = 100
+            f.probe_calls = [[0, x] for x in (10, 0, 1, 100, 101, 50, 7)]
+        else:
+            xs = [(3, 13), (13, 3), (5, 5), (1, 0), (0, 1), (hi, 1), (1, hi), (lo, 2), (7, lo)]
+            f.probe_calls = [[a % W, b % W] for a, b in r.sample(xs, 6)]
+        return f
 
     def ext_ok(self, cx):
         return getattr(self, "use_ext", False) and not cx.is_ctor and not cx.no_calls
@@ -1127,6 +1298,8 @@ class Gen:
         body = self.block(cx, scope, n, 2 if external else 1, False)
         if ret is not None:
             body.append(S("return", e=self.expr(cx, scope, ret, 2)))
+        if payable and getattr(self, "use_bal", False):
+            body.insert(0, S("credit", hid=self.bid))
         name = f"f{idx}" if external else f"g{idx}"
         defaults = {}
         if "defaults" in self.feat and params and r.random() < 0.3:
@@ -1567,6 +1740,8 @@ class Gen:
         def vs(s):
             if s.k in ("assign", "aug", "append") and s.base[0] != "loc":
                 w.add(s.base[1])
+            if s.k == "send":
+                w.add("$balance")
             for e in s_exprs(s):
                 ve(e)
             for b in s_blocks(s):
@@ -1652,6 +1827,11 @@ class Gen:
         else:
             want_ctor = False
         self.use_ext = "extcalls" in self.feat and r.random() < 0.3 and not po
+        self.use_bal = False
+        self.bal_random = False      # self.balance / send in the random part (the probes use them anyway)
+        if "balance" in self.feat and "value" in self.feat:
+            self.ensure_bal()        # before any function is generated: every payable function credits msg.value
+            self.bal_random = r.random() < 0.3 and not po
         if self.use_ext:
             p.uses_ext = True
             self.hid = len(p.sto)
@@ -1680,6 +1860,16 @@ class Gen:
             if "bytes" in self.feat and (self.bytes_types or r.random() < 0.3 or po):
                 for _ in range(m):
                     p.exts.append(self.bytes_probe_function(len(p.exts)))
+            if "internal" in self.feat:
+                for _ in range(3 if po else 1):
+                    p.exts.append(self.rve_probe_function(len(p.exts)))
+            if "arrays" in self.feat:
+                for _ in range(3 if po else 1):
+                    p.exts.append(self.index_probe_function(len(p.exts)))
+            if "shifts" in self.feat:
+                ns = 6 if po else 1      # 6 probe-only programs x 6 = the whole (amount x direction x signedness) table
+                for k in range(ns):
+                    p.exts.append(self.shiftconst_probe_function(len(p.exts), None if self.index is None else self.index * ns + k))
             for _ in range(m):
                 p.exts.append(self.narrow_probe_function(len(p.exts)))
                 p.exts.append(self.constfold_probe_function(len(p.exts)))
@@ -1786,7 +1976,7 @@ class Gen:
             if getattr(f, "probe", None) is not None:
                 pairs = f.probe_calls if getattr(f, "probe_calls", None) else self.probe_args(f.probe)
                 for pair in pairs:
-                    c = Call(i, list(pair))
+                    c = Call(i, list(pair), DEPLOYER, getattr(f, "probe_value", 0))
                     c.probe = True
                     out.insert(self.r.randrange(len(out) + 1), c)
                 if "value" in self.feat and self.r.random() < 0.5 and pairs:
